@@ -56,3 +56,189 @@ Example get_category_sorted_example :
   let b := mkIntr [97]%N [50]%N [121]%N 1 in
   get_category (add (add (add init a) b) a) [97]%N = Some [(b, 1%N); (a, 2%N)].
 Proof. vm_compute. reflexivity. Qed.
+
+(* ---------------------------------------------------------------- the order invariant of reachable states:
+   inside every category the stored registration counters are pairwise distinct and all below the introspector's counter *)
+Require Import Verif.Proofs.C20 Verif.Proofs.C20_wf.
+
+Definition ord {A B} (e : A * (B * N)) : N := snd (snd e).
+Definition catP {A B} (n : N) (l : list (A * (B * N))) : Prop :=
+  NoDup (map ord l) /\ Forall (fun e => (ord e < n)%N) l.
+Definition Ord (s : st) : Prop := Forall (fun p => catP (counter s) (snd p)) (cats s).
+
+Lemma catP_mono {A B} n n' (l : list (A * (B * N))) : (n <= n')%N -> catP n l -> catP n' l.
+Proof.
+  intros H [H1 H2]. split; [exact H1|]. eapply Forall_impl; [|exact H2].
+  intros a Ha. simpl in *. eapply N.lt_le_trans; eassumption.
+Qed.
+
+Lemma ords_assoc_set {B} k (v : B * N) l x :
+  In x (map ord (assoc_set k v l)) -> x = snd v \/ In x (map ord l).
+Proof.
+  induction l as [|[k' v'] r IH]; simpl.
+  - intros [H|[]]; auto.
+  - destruct (text_eqb k k'); simpl; intros [H|H]; auto. destruct (IH H); auto.
+Qed.
+
+Lemma lt_not_in {A B} n (l : list (A * (B * N))) : Forall (fun e => (ord e < n)%N) l -> ~ In n (map ord l).
+Proof.
+  intros H Hin. apply in_map_iff in Hin. destruct Hin as (e & E & He).
+  rewrite Forall_forall in H. specialize (H e He). rewrite E in H. exact (N.lt_irrefl _ H).
+Qed.
+
+Lemma lt_succ_one n : (n < n + 1)%N.
+Proof. apply N.lt_add_pos_r. reflexivity. Qed.
+
+Lemma catP_assoc_set {B} n d (i : B) l : catP n l -> catP (n + 1) (assoc_set d (i, n) l).
+Proof.
+  intros [H1 H2]. induction l as [|[k' v'] r IH]; simpl.
+  - split; [constructor; [intros []|constructor]|constructor; [apply lt_succ_one|constructor]].
+  - simpl in H1. inversion H1 as [|? ? Hn Hr]; subst. inversion H2 as [|? ? Hx Hf]; subst.
+    destruct (text_eqb d k').
+    + split; simpl.
+      * constructor; [apply lt_not_in; exact Hf|exact Hr].
+      * constructor; [apply lt_succ_one|]. eapply Forall_impl; [|exact Hf].
+        intros a Ha. simpl in *. eapply N.lt_trans; [exact Ha|apply lt_succ_one].
+    + destruct (IH Hr Hf) as [I1 I2]. split; simpl.
+      * constructor; [|exact I1]. intros Hin. apply ords_assoc_set in Hin. destruct Hin as [E|Hin]; [|contradiction].
+        simpl in E. rewrite E in Hx. exact (N.lt_irrefl _ Hx).
+      * constructor; [eapply N.lt_trans; [exact Hx|apply lt_succ_one]|exact I2].
+Qed.
+
+Lemma ords_assoc_del {B} k (l : list (text * (B * N))) x : In x (map ord (assoc_del k l)) -> In x (map ord l).
+Proof.
+  induction l as [|[k' v'] r IH]; simpl; [auto|]. destruct (text_eqb k k'); simpl; [auto|]. intros [H|H]; auto.
+Qed.
+
+Lemma catP_assoc_del {B} n k (l : list (text * (B * N))) : catP n l -> catP n (assoc_del k l).
+Proof.
+  intros [H1 H2]. induction l as [|[k' v'] r IH]; simpl; [split; assumption|].
+  simpl in H1. inversion H1 as [|? ? Hn Hr]; subst. inversion H2 as [|? ? Hx Hf]; subst.
+  destruct (text_eqb k k'); [split; assumption|]. destruct (IH Hr Hf) as [I1 I2]. split; simpl.
+  - constructor; [intros Hin; apply Hn; eapply ords_assoc_del; exact Hin|exact I1].
+  - constructor; assumption.
+Qed.
+
+Lemma Ord_cat_of s c : Ord s -> catP (counter s) (cat_of s c).
+Proof.
+  intros H. unfold cat_of. destruct (assoc c (cats s)) as [l|] eqn:E; [|split; constructor].
+  apply assoc_In in E. unfold Ord in H. rewrite Forall_forall in H. exact (H (c, l) E).
+Qed.
+
+Lemma Ord_set_cat s c l r n :
+  Ord s -> (counter s <= n)%N -> catP n l -> Ord (mkSt (assoc_set c l (cats s)) r n).
+Proof.
+  intros H Hn Hl. unfold Ord. simpl.
+  apply (Forall_assoc_set (fun p => catP n (snd p))); [exact Hl|].
+  eapply Forall_impl; [|exact H]. intros a Ha. eapply catP_mono; eassumption.
+Qed.
+
+Lemma Ord_add s i : Ord s -> Ord (add s i).
+Proof.
+  intros H. unfold add. apply Ord_set_cat; [exact H|apply N.le_add_r|].
+  apply catP_assoc_set. apply Ord_cat_of. exact H.
+Qed.
+
+Lemma Ord_same s s' : cats s' = cats s -> counter s' = counter s -> Ord s -> Ord s'.
+Proof. unfold Ord. intros -> ->. auto. Qed.
+
+Lemma Ord_get s c d : Ord s -> Ord (fst (get s c d)).
+Proof.
+  intros H. unfold get. destruct (assoc c (cats s)); simpl; [exact H|].
+  apply Ord_set_cat; [exact H|apply N.le_refl|split; constructor].
+Qed.
+
+Lemma relate_counter s ps s' : relate s ps = Ok s' -> counter s' = counter s.
+Proof. unfold relate. destruct (intrs_by_pairs s ps); intros H; inversion H; reflexivity. Qed.
+Lemma unrelate_counter s ps s' : unrelate s ps = Ok s' -> counter s' = counter s.
+Proof. unfold unrelate. destruct (intrs_by_pairs s ps); intros H; inversion H; reflexivity. Qed.
+Lemma replay_counter rs : forall s i s' e, replay s i rs = (s', e) -> counter s' = counter s.
+Proof.
+  induction rs as [|[c d|c d] r IH]; intros s i s' e H; simpl in H.
+  - inversion H; reflexivity.
+  - destruct (relate s _) as [s1|] eqn:E; [|inversion H; reflexivity].
+    rewrite (IH _ _ _ _ H). eapply relate_counter; eassumption.
+  - destruct (unrelate s _) as [s1|] eqn:E; [|inversion H; reflexivity].
+    rewrite (IH _ _ _ _ H). eapply unrelate_counter; eassumption.
+Qed.
+
+Lemma Ord_remove s c d s' e : Ord s -> remove s c d = (s', e) -> Ord s'.
+Proof.
+  intros H. unfold remove. destruct (get s c d) as [s1 o] eqn:G.
+  assert (H1 : Ord s1) by (change s1 with (fst (s1, o)); rewrite <- G; apply Ord_get; assumption).
+  destruct o as [i|]; [|intros E; inversion E; subst; assumption].
+  destruct (remove_backrefs i _ _) as [rf [e'|]]; intros E; inversion E; subst.
+  - eapply Ord_same; [| |exact H1]; reflexivity.
+  - apply Ord_set_cat; [exact H1|apply N.le_refl|]. apply catP_assoc_del. apply Ord_cat_of. exact H1.
+Qed.
+
+Lemma Ord_register s i rs s' e : Ord s -> register s i rs = (s', e) -> Ord s'.
+Proof.
+  intros H E. unfold register in E.
+  eapply Ord_same; [eapply replay_cats; eassumption|eapply replay_counter; eassumption|]. apply Ord_add. exact H.
+Qed.
+
+Lemma Ord_step s o : Ord s -> Ord (fst (step s o)).
+Proof.
+  intros H. destruct o; simpl.
+  - apply Ord_add; assumption.
+  - exact (Ord_get s c d H).
+  - assumption.
+  - destruct (relate s ps) eqn:E; simpl; [|assumption].
+    eapply Ord_same; [eapply relate_cats; eassumption|eapply relate_counter; eassumption|assumption].
+  - destruct (unrelate s ps) eqn:E; simpl; [|assumption].
+    eapply Ord_same; [eapply unrelate_cats; eassumption|eapply unrelate_counter; eassumption|assumption].
+  - destruct (remove s c d) as [s' [e|]] eqn:E; simpl; eapply Ord_remove; eassumption.
+  - assumption.
+  - destruct (register s i rs) as [s' [e|]] eqn:E; simpl; eapply Ord_register; eassumption.
+  - assumption.
+Qed.
+
+(* every state reached by any operation sequence (adds, registrations with relations, relate / unrelate, removes --
+   also removes that raise part-way -- and reads) keeps the stored orders distinct per category and below the counter *)
+Theorem reachable_orders ops : Ord (run_state init ops).
+Proof.
+  assert (G : forall s, Ord s -> Ord (run_state s ops)).
+  { induction ops as [|o r IH]; intros s H; simpl; [assumption|]. apply IH. apply Ord_step. assumption. }
+  apply G. constructor.
+Qed.
+
+Definition order_lt (x y : intr * N) : Prop := (snd x < snd y)%N.
+
+Lemma sorted_strict l : Sorted order_le l -> NoDup (map snd l) -> Sorted order_lt l.
+Proof.
+  induction l as [|a r IH]; intros Hs Hn; [constructor|].
+  inversion Hs as [|? ? Hs' Hh]; subst. simpl in Hn. inversion Hn as [|? ? Hna Hnr]; subst.
+  constructor; [apply IH; assumption|]. destruct r as [|p r']; constructor.
+  inversion Hh; subst. unfold order_lt, order_le in *. apply N.le_neq. split; [assumption|].
+  intros E. apply Hna. simpl. left. symmetry. exact E.
+Qed.
+
+(* in every reachable state get_category answers in STRICTLY ascending registration order, every order below the
+   counter: no two entries of a category ever share an order *)
+Theorem get_category_strictly_ascending ops c l :
+  get_category (run_state init ops) c = Some l ->
+  Sorted order_lt l /\ Forall (fun e => (snd e < counter (run_state init ops))%N) l.
+Proof.
+  intros H. destruct (get_category_exact_and_sorted _ _ _ H) as [P S].
+  destruct (Ord_cat_of _ c (reachable_orders ops)) as [Hd Hb].
+  split.
+  - apply sorted_strict; [exact S|].
+    eapply Permutation_NoDup; [apply Permutation_map; exact P|]. rewrite map_map. exact Hd.
+  - eapply Permutation_Forall; [exact P|]. apply Forall_map. exact Hb.
+Qed.
+
+(* the invariant, stated on the entries of one category *)
+Theorem reachable_orders_cat ops c :
+  NoDup (map (fun e => snd (snd e)) (cat_of (run_state init ops) c)) /\
+  Forall (fun e => (snd (snd e) < counter (run_state init ops))%N) (cat_of (run_state init ops) c).
+Proof. exact (Ord_cat_of _ c (reachable_orders ops)). Qed.
+
+(* non-vacuity: re-registration under a key, a removal and a later add leave distinct, ascending orders *)
+Example strictly_ascending_example :
+  let a := mkIntr [97]%N [49]%N [120]%N 0 in
+  let b := mkIntr [97]%N [50]%N [121]%N 1 in
+  let c := mkIntr [97]%N [51]%N [122]%N 2 in
+  get_category (run_state init [OAdd a; OAdd b; OAdd a; ORemove [97]%N [50]%N; OAdd c]) [97]%N
+  = Some [(a, 2%N); (c, 3%N)].
+Proof. vm_compute. reflexivity. Qed.
